@@ -99,7 +99,32 @@ pub fn run_session(case: &Value) -> Value {
     s.drain();
     let mut recs = vec![];
     let mut anomalies = vec![];
-    for c in case["cmds"].as_array().unwrap_or(&vec![]) {
+    let mut untranslatable = false;
+    for c0 in case["cmds"].as_array().unwrap_or(&vec![]) {
+        // a command given as text only: a reply if the interpreter waits for one, else a line that the
+        // interpreter's own parser turns into the AST the specification is fed with
+        let mut c_owned = c0.clone();
+        if c0["k"] == "text" {
+            let t = c0["text"].as_str().unwrap_or("").to_string();
+            let waiting = s.probe().state == "Input";
+            if waiting {
+                c_owned = json!({"k": "reply", "s": string_to_cps(&t), "text": t});
+            } else {
+                match crate::fromtext::command(&t) {
+                    Some(mut cmd) => {
+                        cmd["text"] = json!(t);
+                        c_owned = cmd;
+                    }
+                    None => {
+                        // not expressible in the specification's AST: the session ends here, set aside
+                        anomalies.push(json!({"cmd": t, "wait": "untranslatable"}));
+                        untranslatable = true;
+                        break;
+                    }
+                }
+            }
+        }
+        let c = &c_owned;
         let kind = c["k"].as_str().unwrap_or("");
         // a command may carry the text to type (a spelling variant of its rendering)
         let text = match c["text"].as_str() {
@@ -177,7 +202,8 @@ pub fn run_session(case: &Value) -> Value {
             break;
         }
     }
-    json!({"id": case["id"], "cmds": recs, "anomalies": anomalies, "big": case["big"].as_bool().unwrap_or(false)})
+    json!({"id": case["id"], "cmds": recs, "anomalies": anomalies, "big": case["big"].as_bool().unwrap_or(false),
+           "untranslatable": untranslatable, "textual": case["textual"].as_bool().unwrap_or(false)})
 }
 
 /// Expand a session carrying {"sweep": {"cmd": i, "max": M, "inspect": bool}} into one session per
